@@ -510,6 +510,50 @@ def hostile_ods_documents(report):
         core.cleanup(folder)
 
 
+def fixed_line_ends(report):
+    """
+    Fixed-width data under every line-delimiter setting x records ended by LF, CR, CR LF, a mixture or nothing, for fields of
+    one and more characters (the reader looks one character ahead after a CR): rows or data errors, through the API and the
+    command line (never exit code 4).
+    """
+    import cutplace
+    from cutplace import applications, errors
+    folder = core.workdir("c10fixed")
+    try:
+        for widths in ((1,), (1, 2), (2, 1), (3,)):
+            for setting in ("any", "lf", "cr", "crlf", "none"):
+                cid_rows = [["D", "Format", "fixed"], ["D", "Line delimiter", setting]] + [
+                    ["F", "f%d" % number, "", "", str(width)] for number, width in enumerate(widths, 1)]
+                cid = cutplace.Cid()
+                cid.read("cid", cid_rows)
+                cid_path = os.path.join(folder, "cid.csv")
+                with open(cid_path, "w", newline="", encoding="utf-8") as cid_file:
+                    csv.writer(cid_file).writerows(cid_rows)
+                record = "".join("x" * width for width in widths)
+                for ends in (("\n", "\n", "\n"), ("\r", "\r", "\r"), ("\r\n", "\r\n", "\r\n"), ("\r", "\n", "\r\n"), ("\r", "\r", ""),
+                             ("", "", ""), ("\r", "", ""), ("\n", "\r", "\r")):
+                    text = "".join(record + end for end in ends)
+                    what = "fixed data %r, widths %s, line delimiter %s" % (text, list(widths), setting)
+                    report.replayed += 2
+                    try:
+                        list(cutplace.rows(cid, io.StringIO(text, newline=""), on_error="yield"))
+                    except errors.DataError:
+                        pass
+                    except Exception as error:  # noqa
+                        report.violation("c10", {"fixed": text, "widths": list(widths), "line": setting}, "rows or DataError",
+                                         type(error).__name__, "%s: rows() lets escape %s: %s" % (what, type(error).__name__, str(error)[:100]))
+                        continue
+                    data_path = os.path.join(folder, "data.txt")
+                    with open(data_path, "w", newline="", encoding="utf-8") as data_file:
+                        data_file.write(text)
+                    code = applications.main(["cutplace", cid_path, data_path])
+                    if code not in (0, 1):
+                        report.violation("c10", {"fixed": text, "widths": list(widths), "line": setting, "cli": True}, "0 or 1", code,
+                                         "%s: the command line answers %r" % (what, code))
+    finally:
+        core.cleanup(folder)
+
+
 def codec_writers(report):
     """
     Every encoding name of the hostile pool that a CID accepts, as target encoding of a validating writer: rows with text the
@@ -736,6 +780,7 @@ def run(tier, report):
     hostile_ods_documents(report)
     unusual_streams(report)
     codec_writers(report)
+    fixed_line_ends(report)
     report.notes["hostile_spreadsheet_cells"] = "%d hostile data cells were also stored in real .xlsx / .ods files and read through " \
                                                "cutplace.rows (both modes) and the command line" % len(
         [1 for vec, _ in jobs if vec["fmt"] in ("excel", "ods") and any(t["where"] == "data" for t in vec["targets"])])
